@@ -119,7 +119,7 @@ class Glue:
                 rc, rej, msg = R.build(ex, eps, list(range(len(eps))))
                 if rej is not None: return None            # this version assignment makes the table conflict: nothing to serve
                 RL.Ctx.cur_segments = rq.segs
-                hm = HMap([('api-version', httpmodel.SymHeaderValue(present, ascii_ok, parses, hv.adt())), ('x-other', HV('other'))])
+                hm = HMap([('api-version', httpmodel.SymHeaderValue(present, ascii_ok, parses, hv.adt())), ('x-other', HV('other')), ('x-single', HV('one')), ('x-other', HV('other-again'))])
                 request = httpmodel.Request(headers=hm, method=Opaque('reqmethod', rq), uri=uri, body=Opaque('incoming-body'), version=Opaque('HTTP/1.1'))
                 if policy == 'unversioned': vp = ex.mk_enum('VersionPolicy', 'Unversioned')
                 else:
